@@ -24,6 +24,9 @@ N_ = Outcome("N")
 import os as _os
 FEAS_RLIMIT_QF = int(_os.environ.get("PYVC_FEAS_RLIMIT_QF", "300000"))
 FEAS_RLIMIT_FULL = int(_os.environ.get("PYVC_FEAS_RLIMIT_FULL", "600000"))
+# wall-clock safety net of the feasibility / entailment probes; far above what the resource budget takes even on a machine
+# that is 16 times oversubscribed, so that the set of paths explored does not depend on the load
+FEAS_WALL_MS = int(_os.environ.get("PYVC_FEAS_WALL_MS", "60000"))
 
 
 class Obligation:
@@ -486,7 +489,7 @@ class EngineBase:
         # safety net.  ~1.2e6 units per second on the reference machine.
         s = z3.Solver()
         s.set("rlimit", FEAS_RLIMIT_QF)
-        s.set("timeout", 5000)
+        s.set("timeout", FEAS_WALL_MS)
         for a in self.class_axioms_ground():
             s.add(a)
         for c in qf:
@@ -499,7 +502,7 @@ class EngineBase:
             return False
         s = z3.Solver()
         s.set("rlimit", FEAS_RLIMIT_FULL)
-        s.set("timeout", 5000)
+        s.set("timeout", FEAS_WALL_MS)
         for a in self.class_axioms():
             s.add(a)
         for a in st.hs.axioms:
